@@ -1122,8 +1122,8 @@ class _RpcThread(QMI_Thread):
         elif request.lock_action == QMI_LockRpcAction.FORCE_RELEASE:
             # Force release of lock irrespective of requesting proxy.
             if self._locking_token is not None:
-                self._locking_token = return_token = None
                 _logger.warning("%s forcefully unlocked!", self._rpc_object.get_name())
+            self._locking_token = return_token = None
 
         elif request.lock_action == QMI_LockRpcAction.QUERY:
             # Nothing to do here; reply will contain the locking token (if any), is_locked() method of proxy
